@@ -1,7 +1,9 @@
 """C02  Segment selection, ordering, combining and relabelling are exact.
 
 Tie T: T8 (`_get_unsigned_dtype`), T8b (output-value ceiling / default dtype head of
-`_get_pixels_by_seg_frame`), T8c (LABELMAP need_remap / intermediate-dtype decision).
+`_get_pixels_by_seg_frame`), T8c (LABELMAP need_remap / intermediate-dtype decision), T8d (BINARY/FRACTIONAL
+intermediate dtype and refusals), T8e (the LABELMAP remapping table, cell by cell), T8f (per-number checks of
+`get_pixels_by_source_frame`).
 Tie C: the read-side model (Model/SegRead.lean, Model/SegMeta.lean) is run on the *stored frames of the
 real object as pydicom sees them* (segment number, source reference, dimension index values, decoded
 pixels) and compared with what the five public read entry points return (L0); `_get_segment_remap_values`
@@ -18,7 +20,7 @@ from fractions import Fraction
 import numpy as np
 
 PROP = 'C02'
-TARGETS = ['T8', 'T8b', 'T8c', 'T8d', 'T8e']
+TARGETS = ['T8', 'T8b', 'T8c', 'T8d', 'T8e', 'T8f']
 LEAN_MODULES = ['HdVerif.Props.C02']
 MODEL_MODULES = ['HdVerif.Model.SegRead', 'HdVerif.Model.SegMeta']
 NAMESPACE = 'HdVerif.C02'
@@ -1001,6 +1003,10 @@ def run(ctx):
         if focus_types and d['type'] not in focus_types:
             continue
         _object_cases(ctx, d, reqs, pending)
+    ex = ctx.hists.get('exhaustive_subset_objects')
+    if ex:
+        ctx.exhaustive.append('all non-empty ordered subsets of the segment numbers for objects with n segments: '
+                              + ', '.join(f'n={k}: {v} objects' for k, v in sorted(ex.items())))
     answers = ctx.model(reqs)
     if answers is None:
         return
@@ -1050,3 +1056,57 @@ def replay(ctx, case):
     elif 'helper' in case:
         _helpers(sub, [], [])
     return sub.failures[:3] or None
+
+
+def shrink(ctx, failure):
+    """Simplify a failing read: same object, smaller request (defaults for options, fewer planes, fewer segments), as
+    long as the oracle still fails at the same kind of site.  Returns a failure record or None."""
+    case = failure.get('case') or {}
+    if 'obj' not in case or 'req' not in case:
+        return None
+    sub = type(ctx)(ctx.prop, ctx.tier, ctx.seed, 1, ctx.driver)
+    obj = _build(sub, case['obj'])
+    if 'error' in obj:
+        return None
+    frames = _stored_view(obj)
+    info = _plane_lookup(obj, frames)
+    kind = (failure.get('site') or '').split('/')[-1]
+
+    def fails(rq):
+        probe = type(ctx)(ctx.prop, ctx.tier, ctx.seed, 1, ctx.driver)
+        try:
+            _run_read(probe, obj, rq, frames, info)
+        except Exception:  # noqa: BLE001
+            return None
+        for f in probe.failures:
+            if (f.get('site') or '').split('/')[-1] == kind:
+                return f
+        return None
+    best_rq = dict(case['req'])
+    best = fails(best_rq)
+    if best is None:
+        return None
+    budget = 60
+    changed = True
+    while changed and budget > 0:
+        changed = False
+        cands = []
+        for k, v in (('dtype', None), ('skip', False), ('assert_missing', False), ('rescale', True), ('segs_none', False),
+                     ('region', None), ('vrange', None)):
+            if best_rq.get(k) != v and k in best_rq:
+                cands.append(dict(best_rq, **{k: v}))
+        if best_rq.get('planes') and len(best_rq['planes']) > 1:
+            for i in range(len(best_rq['planes'])):
+                cands.append(dict(best_rq, planes=best_rq['planes'][:i] + best_rq['planes'][i + 1:]))
+        if len(best_rq['segs']) > 1:
+            for i in range(len(best_rq['segs'])):
+                cands.append(dict(best_rq, segs=best_rq['segs'][:i] + best_rq['segs'][i + 1:]))
+        for rq in cands:
+            budget -= 1
+            if budget <= 0:
+                break
+            f = fails(rq)
+            if f is not None:
+                best_rq, best, changed = rq, f, True
+                break
+    return best
